@@ -461,11 +461,14 @@ func (a *Analysis) cellWrite(st *funcState, c *Cell, val Set, pos token.Pos) {
 
 // writeInto adds labels to a container value (slice, map, array, channel) and to where it came from.
 func (a *Analysis) writeInto(st *funcState, cont ssa.Value, val Set, pos token.Pos, depth int) {
-	if len(val) == 0 || depth > 6 {
+	if depth > 6 {
 		return
 	}
 	switch x := cont.(type) {
 	case *ssa.Parameter:
+		// also for plain data (no labels to propagate): that the caller's container is written is
+		// an effect in itself - the container may be shared (a package-level table, the caller's
+		// argument)
 		if i := paramIndex(x); i >= 0 {
 			v := Set{}
 			v.addAll(val)
@@ -473,6 +476,26 @@ func (a *Analysis) writeInto(st *funcState, cont ssa.Value, val Set, pos token.P
 		}
 		return
 	case *ssa.Const, *ssa.Global, *ssa.Function:
+		return
+	}
+	if len(val) == 0 {
+		// nothing to propagate; only look for a parameter at the root of the container expression
+		switch x := cont.(type) {
+		case *ssa.Phi:
+			for _, e := range x.Edges {
+				if e != cont {
+					a.writeInto(st, e, val, pos, depth+1)
+				}
+			}
+		case *ssa.Slice:
+			a.writeInto(st, x.X, val, pos, depth+1)
+		case *ssa.ChangeType:
+			a.writeInto(st, x.X, val, pos, depth+1)
+		case *ssa.Convert:
+			a.writeInto(st, x.X, val, pos, depth+1)
+		case *ssa.MakeInterface:
+			a.writeInto(st, x.X, val, pos, depth+1)
+		}
 		return
 	}
 	cur := st.vals[cont]
